@@ -268,7 +268,9 @@ def o_backbone(ctx):
     import propka.determinants as D
     import propka.group as G
     p = H.params()
-    kind = ctx.choice('kind', ['BBN-COO', 'BBN-CYS', 'BBN-TYR', 'BBC-HIS', 'BBC-LYS'])
+    # every group type the shipped file lists for a backbone N-H / C=O partner, protein and ligand (a ligand aromatic nitrogen
+    # is a base that pairs with N-H; a ligand carboxylate is an acid that pairs with both)
+    kind = ctx.choice('kind', ['BBN-COO', 'BBN-CYS', 'BBN-TYR', 'BBC-HIS', 'BBC-LYS', 'BBN-NAR', 'BBC-NAR', 'BBN-OCO', 'BBC-OCO', 'BBC-CG', 'BBC-C2N', 'BBC-N30', 'BBC-N31', 'BBC-N32', 'BBC-N33'])
     bb_t, tt = kind.split('-')
     fa = ctx.real('f_angle', -1, 1)
     d = ctx.real('dist', 0.001, 20)
@@ -278,20 +280,29 @@ def o_backbone(ctx):
         # titratable side
         spec = {'COO': (G.COOGroup, 'ASP', 'CG', -1), 'CYS': (G.CYSGroup, 'CYS', 'SG', -1),
                 'TYR': (G.TYRGroup, 'TYR', 'OH', -1), 'HIS': (G.HISGroup, 'HIS', 'CG', 1),
-                'LYS': (G.LYSGroup, 'LYS', 'NZ', 1)}[tt]
-        ta = H.atom(spec[2], spec[1], 10, 'A', 0.0, 0.0, 0.0)
+                'LYS': (G.LYSGroup, 'LYS', 'NZ', 1),
+                'NAR': (G.NARGroup, 'LIG', 'N1', 1), 'OCO': (G.OCOGroup, 'LIG', 'C1', -1), 'CG': (G.CGGroup, 'LIG', 'C1', 1), 'C2N': (G.C2NGroup, 'LIG', 'C1', 1),
+                'N30': (G.N30Group, 'LIG', 'N1', 1), 'N31': (G.N31Group, 'LIG', 'N1', 1), 'N32': (G.N32Group, 'LIG', 'N1', 1), 'N33': (G.N33Group, 'LIG', 'N1', 1)}[tt]
+        lig = spec[1] == 'LIG'
+        ta = H.atom(spec[2], spec[1], 10, 'A', 0.0, 0.0, 0.0, rec='hetatm' if lig else 'atom')
         tg = spec[0](ta)
         tg.parameters = p
         tg.charge = spec[3]
         tg.titratable = True
-        if tt == 'HIS':
+        if lig and tt not in ('OCO',):
+            # a base: its proton (interaction atom for acids) and the heavy atom
+            hh = H.atom('H1', 'LIG', 10, 'A', 0.0, 0.0, 1.0, element='H', rec='hetatm')
+            hh.bonded_atoms = [ta]
+            ta.bonded_atoms = [hh]
+            tg.set_interaction_atoms([hh, ta], [ta])
+        elif tt == 'HIS':
             hn = H.atom('ND1', 'HIS', 10, 'A', 0.0, 0.0, 0.0)
             hh = H.atom('HD1', 'HIS', 10, 'A', 0.0, 0.0, 1.0, element='H')
             hh.bonded_atoms = [hn]
             hn.bonded_atoms = [hh]
             tg.set_interaction_atoms([hh, hn], [hn])
         else:
-            ia = H.atom('OD1' if tt == 'COO' else spec[2], spec[1], 10, 'A', 0.0, 0.0, 0.0)
+            ia = H.atom('OD1' if tt == 'COO' else ('O1' if tt == 'OCO' else spec[2]), spec[1], 10, 'A', 0.0, 0.0, 0.0, rec='hetatm' if lig else 'atom')
             tg.set_interaction_atoms([ia], [ia])
         # backbone side at symbolic distance along x
         if bb_t == 'BBN':
